@@ -101,7 +101,7 @@ func (s *xscanner) readTextLiteral(buf *bytes.Buffer) {
 
 		if ch == '"' && !escaped {
 			break
-		} else if ch == '\\' {
+		} else if ch == '\\' && !escaped {
 			escaped = true
 		} else {
 			escaped = false
